@@ -98,7 +98,7 @@ def merge_streams(outs):
 
 # per property: Lean modules holding its theorems, the streams it runs, the oracle it reads
 SPECS = {
-    "C01": dict(modules=["Ovldverif.Props.C01"], streams=["fn", "fn_rich", "dep_f", "rewrite"], oracle="C01"),
+    "C01": dict(modules=["Ovldverif.Props.C01", "Ovldverif.Props.C01Dep"], streams=["fn", "fn_rich", "dep_f", "rewrite"], oracle="C01"),
     "C10": dict(modules=["Ovldverif.Props.C10"], streams=["dep_e", "dep_f", "dep_lit"], oracle="C10"),
     "C11": dict(modules=["Ovldverif.Props.C11", "Ovldverif.Props.C11Comb", "Ovldverif.Props.C10", "Ovldverif.Props.C15"], streams=["dep_e", "dep_f", "dep_lit", "annotations"], oracle="C11"),
     "C02": dict(modules=["Ovldverif.Props.C02"], streams=["table_static", "fn_static", "levels"], oracle="C02"),
@@ -108,7 +108,7 @@ SPECS = {
     "C06": dict(modules=["Ovldverif.Props.C06"], streams=["table_static", "fn_static", "levels", "levels_rich"], oracle="C06"),
     "C07": dict(modules=["Ovldverif.Props.C07"], streams=["table_static", "fn_static", "levels"], oracle="C07"),
     "C20": dict(modules=["Ovldverif.Props.C20"], streams=["table_rich", "fn", "dep_f"], oracle="C20"),
-    "C09": dict(modules=["Ovldverif.Props.C09"], streams=["rewrite", "rewrite_struct"], oracle="C09"),
+    "C09": dict(modules=["Ovldverif.Props.C09", "Ovldverif.Props.C09Stmt"], streams=["rewrite", "rewrite_struct"], oracle="C09"),
     "C16": dict(modules=["Ovldverif.Props.C16"], streams=["graph"], oracle="C16"),
     "C18": dict(modules=["Ovldverif.Props.C18", "Ovldverif.Props.C18Resolve"], streams=["build", "table_cut", "table_cut_rich"], oracle="C18"),
     "C08": dict(modules=["Ovldverif.Props.C08"], streams=["graph", "graph_deep"], oracle="C08"),
